@@ -237,8 +237,12 @@ class PDFXRefFallback(PDFXRef):
             if not m:
                 continue
             (objid_s, genno_s) = m.groups()
-            objid = int(objid_s)
-            genno = int(genno_s)
+            objid_i = safe_int(objid_s)
+            genno_i = safe_int(genno_s)
+            if objid_i is None or genno_i is None:
+                # more digits than int() converts: not an object header
+                continue
+            (objid, genno) = (objid_i, genno_i)
             self.offsets[objid] = (None, pos, genno)
             # expand ObjStm.
             parser.seek(pos)
@@ -1118,7 +1122,11 @@ class PDFDocument:
                 if not prev.isdigit():
                     raise PDFNoValidXRef(f"Invalid xref position: {prev!r}")
 
-                start = int(prev)
+                start = safe_int(prev)
+
+                if start is None:
+                    # more digits than int() converts
+                    raise PDFNoValidXRef("Invalid xref position: too many digits")
 
                 if not start >= 0:
                     raise PDFNoValidXRef(f"Invalid negative xref position: {start}")
